@@ -34,6 +34,7 @@ def must_see(tier):
         m[impl + ':setstate-empty-on-live'] = 5
         m[impl + ':setstate-on-chained-leaf'] = 20
         m[impl + ':ctor-copy-independent'] = 100
+        m[impl + ':explore:state-round-tripped'] = 1000
     m['c-written-keys-cross-load'] = 20
     for p in range(6):
         m['protocol:%d' % p] = 50
@@ -58,6 +59,11 @@ def plan(tier, seed):
             specs.append(dict(label=fam + '-asan', family=fam, containers=120,
                               seed=seed + 3, tier=tier, variant='asan',
                               timeout=7200))
+    # every reachable state of a small universe through the round trips
+    # (vmon/explore.py)
+    from .. import explore
+    specs += explore.specs_for(ID, tier, seed, ['OO', 'II'],
+                               ['OO', 'II', 'fs', 'LF'])
     return specs
 
 
@@ -124,6 +130,9 @@ def state_form(t, is_tree):
 
 
 def run_shard(spec, rec):
+    if spec.get('explore'):
+        from .. import explore
+        return explore.run_shard(ID, spec, rec)
     fam = families.get(spec['family'])
     for ci in range(spec['containers']):
         for kind in families.KINDS:
